@@ -136,6 +136,24 @@ Theorem C02_rs_one_byte_exact : forall b, set_rs_short [b] = RsPanic <-> ~ (0 <=
 Proof. exact rs_one_byte_exact. Qed.
 Print Assumptions C02_rs_one_byte_exact.
 
+(* ---- 4b. CSV/TSV input: $i after `getline var` (finding F-C02-8) ------------------------------ *)
+
+(* full statement: whatever sequence of records read, `getline var`s, uses of NF and reads of $i
+   (i >= 1) happens in CSV/TSV input mode, getField never indexes p.fieldsIsTrueStr out of range *)
+Definition C02_csv_fields_full_statement : Prop :=
+  forall ops, (forall o, In o ops -> match o with ORecord n | OGetlineVar n => 0 <= n | OField i => 1 <= i | ONF => True end) ->
+  f_run fs_init ops <> None.
+
+(* false: BEGIN { n = NF; getline x; print $1 } with a three-field first record *)
+Theorem C02_csv_getline_var_refuted : ~ C02_csv_fields_full_statement.
+Proof. exact csv_getline_var_refuted. Qed.
+Print Assumptions C02_csv_getline_var_refuted.
+
+(* true when no `getline var` (or `getline array[i]`) is executed *)
+Theorem C02_csv_fields_partial : forall ops, no_getline_var ops -> f_run fs_init ops <> None.
+Proof. exact csv_fields_partial. Qed.
+Print Assumptions C02_csv_fields_partial.
+
 (* ---- non-vacuity ---------------------------------------------------------------------------- *)
 
 (* a primitive record meeting [prims_shape] exists: any record, with CallBuiltin forced to the table *)
